@@ -33,6 +33,8 @@ import Rooc.Proofs.LinBridgeCounter
 import Rooc.Proofs.LinDExamples2
 import Rooc.Proofs.LinTolCounter
 import Rooc.Proofs.LinWire
+import Rooc.Proofs.LinSucceed2
+import Rooc.Proofs.LinDExamples3
 namespace Rooc.Props.C01
 open Rooc Rooc.Lin
 open Rooc.Lin.Gadget (B01 DomMax DomMin)
@@ -721,7 +723,7 @@ source-feasible iff it extends, on the compiler's auxiliaries only, to a feasibl
 
 `_partial`: the excluded region is (i) models with an and/or node that collapses to a non-0/1 value on the
 domains (`c01_logic_counterexample`: C10's known finding, flag `nary-singleton-nonbinary`), (ii) sides undefined at an assignment satisfying the domains
-(`c01_defined_counterexample`).  `DomRel`/`BoxEnforced` as in `c01_partial`; they are discharged for the whole
+(`c01_defined_counterexample`; the variant with finite literals, an undefined operand pruned by `linearize_extreme`, is repaired: `c01_pruned_operand_regression`).  `DomRel`/`BoxEnforced` as in `c01_partial`; they are discharged for the whole
 pipeline in `c01_compile_logic_partial`. -/
 theorem c01_logic_partial {m : Model (Ext K)} {b : BoundsMap (Ext K)} {d : List (DomVar (Ext K))}
     {lm : LinModel (Ext K)} (h : linearizeWith m b d = .ok lm)
@@ -833,11 +835,70 @@ theorem c01_tolerance_counterexample {t : K} (ht : 1 ≤ t) (maxSteps : Nat) :
   obtain ⟨lm, ρ, h1, h2, h3⟩ := tolerance_ge_one_breaks (K := K) ht maxSteps
   exact ⟨exI, lm, ρ, h1, exI_hyps.1, exI_hyps.2.1, exI_hyps.2.2, h2, h3⟩
 
+/-- **regression for the repaired finding on pruning** (rooc 46b0121, found by this development):
+`min y s.t. c: y ≥ max{10, 0 * (x / 0)}`.  The operand `0 * (x / 0)` has no value at any assignment, its box is
+`[0, 0]`, so it is dominated by `10`; `linearize_extreme` used to PRUNE IT WITHOUT LOWERING IT — the division by
+zero was never reported, the row was `y ≥ 10`, the linear model feasible and the source model not.  The
+retention test is now `¬dominated ∨ may_be_undefined` (`retainedFlagsE`); the operand is lowered and the
+compilation is rejected. -/
+theorem c01_pruned_operand_regression :
+    linearizeWith (exPr : Model (Ext K)) [] (exPr : Model (Ext K)).domain = .error .divisionByZero :=
+  exPr_error
+
 /-- **`AssertShape` is discharged for every model that comes over the wire** (`Model.dec`, the decoder the
 checker uses): a bare assertion is always stored as `lhs = 1`. -/
 theorem assertShape_of_wire [Wire (Ext K)] {s : Sexp} {m : Model (Ext K)} (h : Model.dec s = some m) :
     AssertShape m := assertShape_of_dec h
 
 end Hypotheses
+
+/-! ## the error direction — supported affine models COMPILE
+
+`L1 e` (`Rooc/Proofs/LinSucceed.lean`, decidable): arithmetic only, every product has a literal factor, every
+divisor is a non-zero literal.  `SrcL c`: `c` is a comparison whose sides, AFTER CONSTANT FOLDING (`simplify`), are
+`L1` and fit the flatten fuel (`fsize`, the size of the fully distributed form, ≤ 10⁶). -/
+
+section Success
+variable [FloorRing K]
+open Rooc.Exp
+
+/-- `Exp::linearize` never fails on a linear shape (no spurious `NonLinearExpression` / `DivisionByZero`), and
+does not touch the state. -/
+theorem linearize_exp_succeeds (e : Exp (Ext K)) (h : L1 e) (req : Req) (s : St (Ext K)) :
+    ∃ c, linExp e req s = .ok (c, s) := linExp_L1 e h req s
+
+/-- `L1` is closed under the whole `normalize` (simplify → flatten → simplify), which succeeds within the fuel
+and does not grow the fuel measure. -/
+theorem normalize_succeeds {e : Exp (Ext K)} (h : L1 (simplify e)) (hsz : fsize (simplify e) ≤ flattenFuel) :
+    ∃ e', normalizeExp e = some e' ∧ L1 e' ∧ fsize e' ≤ fsize (simplify e) := normalize_L1 h hsz
+
+/-- **no spurious error**: a model whose objective and constraints are supported affine expressions compiles —
+through the whole pipeline, for every tolerance and every step limit, whatever the declared domains. -/
+theorem c01_affine_compile_succeeds {m : Model (Ext K)} (tol : Ext K) (maxSteps : Nat)
+    (hobj : L1 (simplify m.objective)) (hobjsz : fsize (simplify m.objective) ≤ flattenFuel)
+    (hcons : ∀ c ∈ m.constraints, SrcL c) (hlen : m.constraints.length < drainFuel) :
+    ∃ lm, Compile.linearize m tol maxSteps = .ok lm :=
+  compile_succeeds tol maxSteps hobj hobjsz hcons hlen
+
+/-- the same for `linearizeWith` with any bounds map and any domain. -/
+theorem c01_affine_linearizeWith_succeeds {m : Model (Ext K)} (b : BoundsMap (Ext K)) (d : List (DomVar (Ext K)))
+    (hobj : L1 (simplify m.objective)) (hobjsz : fsize (simplify m.objective) ≤ flattenFuel)
+    (hcons : ∀ c ∈ m.constraints, SrcL c) (hlen : m.constraints.length < drainFuel) :
+    ∃ lm, linearizeWith m b d = .ok lm :=
+  linearizeWith_succeeds b d hobj hobjsz hcons hlen
+
+/-- non-vacuity: `min x s.t. x ≤ y` is a supported affine model. -/
+example : L1 (simplify (exAffine : Model (Ext K)).objective) ∧
+    fsize (simplify (exAffine : Model (Ext K)).objective) ≤ flattenFuel ∧
+    (∀ c ∈ (exAffine : Model (Ext K)).constraints, SrcL c) ∧
+    (exAffine : Model (Ext K)).constraints.length < drainFuel := by
+  refine ⟨by simp [exAffine, simplify, L1], by simp [exAffine, simplify, fsize, flattenFuel], ?_,
+    by simp [exAffine, drainFuel]⟩
+  intro c hc
+  simp only [exAffine, List.mem_singleton] at hc
+  subst hc
+  exact ⟨rfl, by simp [simplify, L1], by simp [simplify, L1], by simp [simplify, fsize, flattenFuel]⟩
+
+end Success
 
 end Rooc.Props.C01
